@@ -317,7 +317,7 @@ func (ml *msgList) encode(kind string, comp h.Comp, msgs []proto.Message) ([]byt
 // Mut is one structured mutation of the message list.
 type Mut struct {
 	I     int    `json:"i"`  // message index (mod length)
-	Op    string `json:"op"` // set | drop | dup | swap | cut | replace | insert
+	Op    string `json:"op"` // set | drop | dup | swap | cut | replace | insert | reseries
 	Field string `json:"field,omitempty"`
 	V     int64  `json:"v,omitempty"`
 	N     int    `json:"n,omitempty"`
@@ -436,6 +436,43 @@ func applyMuts(msgs []proto.Message, muts []Mut) []proto.Message {
 			}
 		case "cut":
 			out = out[:i]
+		case "reseries":
+			// the whole series of one file (sync header .. end marker) replaced by a syntactically complete series
+			// of the other kind for the same file: "series kinds swapped" with everything that belongs to the kind
+			var heads []int
+			for k, m := range out {
+				if _, ok := m.(*pwr.SyncHeader); ok {
+					heads = append(heads, k)
+				}
+			}
+			if len(heads) == 0 {
+				continue
+			}
+			from := heads[i%len(heads)]
+			sh := out[from].(*pwr.SyncHeader)
+			to := from + 1
+			for to < len(out) {
+				if op, ok := out[to].(*pwr.SyncOp); ok && op.Type == pwr.SyncOp_HEY_YOU_DID_IT {
+					to++
+					break
+				}
+				to++
+			}
+			var ns []proto.Message
+			if sh.Type == pwr.SyncHeader_BSDIFF {
+				ns = append(ns, &pwr.SyncHeader{FileIndex: sh.FileIndex, Type: pwr.SyncHeader_RSYNC})
+				if mu.N > 0 {
+					ns = append(ns, &pwr.SyncOp{Type: pwr.SyncOp_DATA, Data: junk(mu.N)})
+				}
+			} else {
+				ns = append(ns, &pwr.SyncHeader{FileIndex: sh.FileIndex, Type: pwr.SyncHeader_BSDIFF}, &pwr.BsdiffHeader{TargetIndex: mu.V})
+				if mu.N > 0 {
+					ns = append(ns, &bsdiff.Control{Add: junk(mu.N / 2), Copy: junk(mu.N - mu.N/2)})
+				}
+				ns = append(ns, &bsdiff.Control{Eof: true})
+			}
+			ns = append(ns, &pwr.SyncOp{Type: pwr.SyncOp_HEY_YOU_DID_IT})
+			out = append(append(append([]proto.Message{}, out[:from]...), ns...), out[to:]...)
 		case "replace":
 			out[i] = mkMsg(mu.R, mu.V)
 		case "insert":
@@ -848,6 +885,11 @@ func genMut(t *rapid.T, e *corpusEntry, kind string) Mut {
 	mu := Mut{I: rapid.IntRange(0, 400).Draw(t, "index")}
 	mu.Op = rapid.SampledFrom([]string{"set", "set", "set", "set", "drop", "dup", "swap", "cut", "replace", "insert"}).Draw(t, "mutation")
 	mu.V = hostile(t, e, "value")
+	if kind == "patch" && rapid.IntRange(0, 7).Draw(t, "reseries") == 0 {
+		mu.Op = "reseries"
+		mu.V = rapid.OneOf(rapid.Int64Range(0, int64(e.nOld)), rapid.Just(mu.V)).Draw(t, "bsdiff-target")
+		mu.N = rapid.SampledFrom([]int{0, 0, 0, 1, 2, 100, 200, 5000, 70000}).Draw(t, "series-bytes")
+	}
 	switch mu.Op {
 	case "set":
 		switch kind {
